@@ -304,7 +304,7 @@ func (g *jgen) tplFail(maxSubs int) *jScenario {
 	topic := uint64(g.r.Intn(3))
 	k := g.r.Intn(6) // index of the failing call: even = a Send, odd = the Flush after a successful Send
 	code := uint64(100 + g.r.Intn(5))
-	f := jSubSpec{topics: []uint64{topic}, script: append(jZeros(k), code), selfCancel: g.r.Bool()}
+	f := jSubSpec{topics: []uint64{topic}, script: append(jZeros(k), code), selfCancel: g.r.Chance(2, 3)}
 	if g.r.Chance(1, 3) {
 		f.topics = append(f.topics, topic+1)
 	}
